@@ -410,6 +410,523 @@ fn first_paragraph(rng: &mut Rng, pool: &[&String]) -> String {
     s
 }
 
+// =================================================================================================
+// w25 additions: the property through the OTHER call sites of `LintGroup::lint` (harper-wasm's
+// `Linter::lint`, harper-ls's `DocumentState::generate_diagnostics` and the real `Backend`), under
+// the other configurations (every dialect, a merged dictionary with user words, `new_curated_empty_config`),
+// the property's SECOND sentence evaluated directly (edit one paragraph of a three-paragraph
+// document: the lints of the other paragraphs stay / move by the length change), and first
+// paragraphs no generator wrote (several paragraphs, wrapped lines, non-ASCII / astral / combining /
+// fullwidth words). All oracle-only.
+// =================================================================================================
+
+/// user words of the merged-dictionary configurations: case variants and apostrophes
+const W25_USER_WORDS: &[&str] = &["teh", "Wrod", "RECIEVE", "zqxv", "O'Zqxv", "zqxv's", "Thier’s", "mispelled"];
+const W25_STREAMS: [&str; 9] = [
+    "core/all-rules-on/British/uncached",
+    "core/all-rules-on/Australian/uncached",
+    "core/all-rules-on/Canadian/uncached",
+    "core/all-rules-on/American/merged-dictionary-with-user-words/uncached",
+    "core/all-rules-on/American/merged-dictionary-with-user-words/fresh-group-per-lint",
+    "wasm/Linter::lint(Plain)/American/long-lived",
+    "wasm/Linter::lint(Plain)/British/import_words/long-lived",
+    "wasm/Linter::lint(Plain)/American/new-Linter-per-lint",
+    "ls/DocumentState::generate_diagnostics/American/merged-dictionary-with-user-words/long-lived",
+];
+
+struct W25Env {
+    dialects: Vec<LintGroup>,
+    merged_dict: std::sync::Arc<harper_core::MergedDictionary>,
+    merged: LintGroup,
+    wasm: harper_wasm::Linter,
+    wasm_words: harper_wasm::Linter,
+    ls: crate::document_state::DocumentState,
+    nonce: u64,
+}
+
+thread_local! { static W25: RefCell<Option<W25Env>> = RefCell::new(None); }
+
+fn w25_merged_dict() -> std::sync::Arc<harper_core::MergedDictionary> {
+    let mut user = harper_core::MutableDictionary::new();
+    for w in W25_USER_WORDS {
+        user.append_word_str(w, harper_core::WordMetadata::default());
+    }
+    let mut m = harper_core::MergedDictionary::new();
+    m.add_dictionary(FstDictionary::curated());
+    m.add_dictionary(std::sync::Arc::new(user));
+    std::sync::Arc::new(m)
+}
+
+fn with_w25<T>(f: impl FnOnce(&mut W25Env) -> T) -> T {
+    W25.with(|g| {
+        let mut g = g.borrow_mut();
+        if g.is_none() {
+            let all_on = |mut lg: LintGroup| {
+                lg.config.fill_with_curated();
+                lg.set_all_rules_to(Some(true));
+                lg
+            };
+            let dialects = [Dialect::British, Dialect::Australian, Dialect::Canadian].into_iter().map(|d| all_on(LintGroup::new_curated(FstDictionary::curated(), d))).collect();
+            let merged_dict = w25_merged_dict();
+            let merged = all_on(LintGroup::new_curated(merged_dict.clone(), Dialect::American));
+            let wasm = harper_wasm::Linter::new(harper_wasm::Dialect::American);
+            let mut wasm_words = harper_wasm::Linter::new(harper_wasm::Dialect::British);
+            wasm_words.import_words(W25_USER_WORDS.iter().map(|w| w.to_string()).collect());
+            let ls = crate::document_state::DocumentState {
+                linter: LintGroup::new_curated(merged_dict.clone(), Dialect::American),
+                dict: merged_dict.clone(),
+                url: tower_lsp::lsp_types::Url::parse("file:///c12.txt").unwrap(),
+                ..Default::default()
+            };
+            *g = Some(W25Env { dialects, merged_dict, merged, wasm, wasm_words, ls, nonce: 0 });
+        }
+        f(g.as_mut().unwrap())
+    })
+}
+
+fn w25_wasm_key(l: &harper_wasm::Lint) -> Key {
+    let sugg: Vec<String> = l.suggestions().iter().map(|s| format!("{:?}:{}", s.kind(), s.get_replacement_text())).collect();
+    (l.span().start, l.span().end, l.lint_kind(), l.message(), format!("{:?}", sugg), 0)
+}
+
+/// a position of a published diagnostic as ONE number that orders like (line, character)
+fn w25_pos(line: u64, character: u64) -> usize {
+    ((line << 24) | character.min((1 << 24) - 1)) as usize
+}
+
+fn w25_diag_keys(v: &Value) -> Vec<Key> {
+    v.as_array()
+        .map(|a| {
+            a.iter()
+                .map(|d| {
+                    let p = |side: &str, f: &str| d["range"][side][f].as_u64().unwrap_or(0);
+                    (
+                        w25_pos(p("start", "line"), p("start", "character")),
+                        w25_pos(p("end", "line"), p("end", "character")),
+                        format!("{} {}", d["source"], d["code"]),
+                        d["message"].as_str().unwrap_or("").to_string(),
+                        String::new(),
+                        d["severity"].as_u64().unwrap_or(0) as u8,
+                    )
+                })
+                .collect()
+        })
+        .unwrap_or_default()
+}
+
+/// the lints of `text` through stream `s` of `W25_STREAMS`, as keys in that stream's coordinates
+/// (characters for harper-core and harper-wasm, (line, UTF-16 column) for harper-ls)
+fn w25_lint(s: usize, text: &str) -> Result<Vec<Key>, String> {
+    guarded(|| {
+        with_w25(|e| {
+            e.nonce += 1;
+            let nonce = e.nonce;
+            let mut uncached = |g: &mut LintGroup, doc: &Document| -> Vec<Key> {
+                g.config.unset_rule_enabled(format!("zz-c12-w25-nonce-{}", nonce - 1));
+                g.config.set_rule_enabled(format!("zz-c12-w25-nonce-{}", nonce), true);
+                let r = g.lint(doc).iter().map(|l| key_of(l, 0)).collect();
+                g.config.unset_rule_enabled(format!("zz-c12-w25-nonce-{}", nonce));
+                r
+            };
+            match s {
+                0..=2 => {
+                    let dict = FstDictionary::curated();
+                    let doc = Document::new(text, &PlainEnglish, &dict);
+                    uncached(&mut e.dialects[s], &doc)
+                }
+                3 => {
+                    let doc = Document::new(text, &PlainEnglish, e.merged_dict.as_ref());
+                    uncached(&mut e.merged, &doc)
+                }
+                4 => {
+                    let dict = w25_merged_dict();
+                    let doc = Document::new(text, &PlainEnglish, dict.as_ref());
+                    let mut g = LintGroup::new_curated(dict.clone(), Dialect::American);
+                    g.config.fill_with_curated();
+                    g.set_all_rules_to(Some(true));
+                    g.lint(&doc).iter().map(|l| key_of(l, 0)).collect()
+                }
+                5 => e.wasm.lint(text.to_string(), harper_wasm::Language::Plain).iter().map(w25_wasm_key).collect(),
+                6 => e.wasm_words.lint(text.to_string(), harper_wasm::Language::Plain).iter().map(w25_wasm_key).collect(),
+                7 => harper_wasm::Linter::new(harper_wasm::Dialect::American).lint(text.to_string(), harper_wasm::Language::Plain).iter().map(w25_wasm_key).collect(),
+                _ => {
+                    e.ls.document = Document::new(text, &PlainEnglish, e.merged_dict.as_ref());
+                    let d = e.ls.generate_diagnostics(crate::config::DiagnosticSeverity::Hint);
+                    w25_diag_keys(&serde_json::to_value(d).unwrap_or(Value::Null))
+                }
+            }
+        })
+    })
+}
+
+/// `compare` on keys that are already in the whole text's coordinates; `cut` = where D begins
+fn w25_compare(got: &[Key], want: &[Key], cut: usize) -> Option<(String, String)> {
+    let mut gs = got.to_vec();
+    let mut ws = want.to_vec();
+    gs.sort();
+    ws.sort();
+    if gs != ws {
+        let only_whole: Vec<&Key> = gs.iter().filter(|k| !ws.contains(k)).take(3).collect();
+        let only_parts: Vec<&Key> = ws.iter().filter(|k| !gs.contains(k)).take(3).collect();
+        return Some(("multiset".into(), format!("only in lint(P+D): {:?}; only in lint(P)++shift(lint(D)): {:?}", only_whole, only_parts)));
+    }
+    let side = |ks: &[Key], first: bool| -> Vec<Key> { ks.iter().filter(|k| (k.0 < cut) == first).cloned().collect() };
+    if side(got, true) != side(want, true) || side(got, false) != side(want, false) {
+        return Some(("order".into(), "same lints, but their relative order within one paragraph differs".into()));
+    }
+    if let Some(k) = got.iter().find(|k| k.0 < cut && k.1 > cut) {
+        return Some(("multiset".into(), format!("lint {:?} straddles the paragraph break", k)));
+    }
+    None
+}
+
+/// the matcher of the recorded finding `c12-lex-at-lookahead`, for a text `head + tail`
+fn w25_known_at(head: &str, tail: &str) -> bool {
+    if tail.starts_with('\n') || !tail.contains('@') {
+        return false;
+    }
+    let dict = FstDictionary::curated();
+    let whole = format!("{}{}", head, tail);
+    let hlen = head.chars().count();
+    let lex = |t: &str| guarded(|| PlainEnglish.parse(&t.chars().collect::<Vec<char>>())).unwrap_or_default();
+    let doc = |t: &str| guarded(|| Document::new(t, &PlainEnglish, &dict)).map(|d| d.get_tokens().to_vec()).unwrap_or_default();
+    let (tp, td, tw) = (doc(head), doc(tail), doc(&whole));
+    let want: Vec<String> = tp.iter().map(|t| shift_tok(t, 0, 0)).chain(td.iter().map(|t| shift_tok(t, hlen, tp.len()))).collect();
+    let differ = want != tw.iter().map(tok_show).collect::<Vec<_>>();
+    differ && has_at_lookahead(head, tail, &lex(head), &lex(&whole))
+}
+
+/// the property's first sentence through stream `s`: lint(P+D) = lint(P) ++ shift(lint(D))
+fn w25_eval_pair(s: usize, p: &str, d: &str) -> PairOut {
+    let mut out = PairOut { k: vec![], counts: vec![], monitors: vec![], fails: vec![], nontrivial: false };
+    let name = W25_STREAMS[s];
+    let whole = format!("{}{}", p, d);
+    // the whole first: a long-lived instance cannot have seen the parts alone before
+    let (Ok(lw), Ok(lp), Ok(ld)) = (w25_lint(s, &whole), w25_lint(s, p), w25_lint(s, d)) else {
+        out.counts.push(format!("w25:{}:lint-panicked(C01's business)", name));
+        return out;
+    };
+    out.counts.push(format!("w25:{}:pairs", name));
+    out.counts.push(format!("w25:{}:lints-in-whole:{}", name, lw.len().min(5)));
+    // where D begins, and by how much D's lints move, in this stream's coordinates
+    let shift = if name.starts_with("ls/") { w25_pos(p.chars().filter(|c| *c == '\n').count() as u64, 0) } else { p.chars().count() };
+    let mut want = lp.clone();
+    want.extend(ld.iter().map(|k| (k.0 + shift, k.1 + shift, k.2.clone(), k.3.clone(), k.4.clone(), k.5)));
+    if !lp.is_empty() && !ld.is_empty() {
+        out.nontrivial = true;
+    }
+    if let Some((what, desc)) = w25_compare(&lw, &want, shift) {
+        let class = if w25_known_at(p, d) { "c12-lex-at-lookahead".to_string() } else { format!("c12-callsite-{}-{}", slug(name.split('/').next().unwrap_or("")), what) };
+        out.fails.push((class, format!("[{}] {} — {}", name, what, desc), json!({"P": p, "D": d, "w25_stream": name})));
+    }
+    out
+}
+
+/// The property's SECOND sentence, directly: the text `paras[0] + … + paras[n-1]` and the same
+/// text with paragraph `idx` replaced by `repl`. Every paragraph but the last is complete (ends
+/// in a terminator and a paragraph break) and free of quotation marks, before and after the edit.
+/// Then every lint outside the edited paragraph is there before and after, in the same order, the
+/// ones behind it moved by the length change, and none reaches into the edited paragraph.
+fn w25_eval_edit(s: Option<usize>, cfg: usize, paras: &[String], idx: usize, repl: &str) -> PairOut {
+    let mut out = PairOut { k: vec![], counts: vec![], monitors: vec![], fails: vec![], nontrivial: false };
+    let name = match s {
+        Some(s) => W25_STREAMS[s],
+        None => CONFIGS[cfg],
+    };
+    let before: String = paras.concat();
+    let after: String = paras.iter().enumerate().map(|(i, x)| if i == idx { repl } else { x.as_str() }).collect();
+    let lint = |t: &str| -> Result<Vec<Key>, String> {
+        match s {
+            Some(s) => w25_lint(s, t),
+            None => lint_text(cfg, t).map(|v| v.iter().map(|l| key_of(l, 0)).collect()),
+        }
+    };
+    // the editor's order: the document, then the edited document
+    let (Ok(l0), Ok(l1)) = (lint(&before), lint(&after)) else {
+        out.counts.push(format!("w25:edit:{}:lint-panicked(C01's business)", name));
+        return out;
+    };
+    let ls = name.starts_with("ls/");
+    let measure = |t: &str| if ls { w25_pos(t.chars().filter(|c| *c == '\n').count() as u64, 0) } else { t.chars().count() };
+    let start = measure(&paras[..idx].concat());
+    // nothing is behind the last paragraph (and in (line, column) coordinates its end is not a line start)
+    let last = idx + 1 == paras.len();
+    let old_end = if last { usize::MAX / 2 } else { measure(&paras[..=idx].concat()) };
+    let new_end = if last { usize::MAX / 2 } else { measure(&format!("{}{}", paras[..idx].concat(), repl)) };
+    out.counts.push(format!("w25:edit:{}:edits", name));
+    out.counts.push(format!("w25:edit:paragraph-{}-of-{}{}", idx + 1, paras.len(), if repl.is_empty() { ":deleted" } else { "" }));
+    let head = |ks: &[Key]| -> Vec<Key> { ks.iter().filter(|k| k.1 <= start && k.0 < start).cloned().collect() };
+    let tail = |ks: &[Key], from: usize| -> Vec<Key> { ks.iter().filter(|k| k.0 >= from).map(|k| (k.0 - from, k.1 - from, k.2.clone(), k.3.clone(), k.4.clone(), k.5)).collect() };
+    let reaches = |ks: &[Key], a: usize, b: usize| ks.iter().find(|k| (k.0 < a && k.1 > a) || (k.0 < b && k.1 > b)).cloned();
+    let (h0, h1, t0, t1) = (head(&l0), head(&l1), tail(&l0, old_end), tail(&l1, new_end));
+    if !h0.is_empty() || !t0.is_empty() {
+        out.nontrivial = true;
+    }
+    let input = json!({"paragraphs": paras, "edit": idx, "replacement": repl, "w25_stream": name});
+    let known_at = (0..paras.len()).any(|i| w25_known_at(&paras[..i].concat(), &paras[i..].concat())) || {
+        let e: Vec<String> = paras.iter().enumerate().map(|(i, x)| if i == idx { repl.to_string() } else { x.clone() }).collect();
+        (0..e.len()).any(|i| w25_known_at(&e[..i].concat(), &e[i..].concat()))
+    };
+    let mut fail = |what: &str, desc: String| {
+        let class = if known_at { "c12-lex-at-lookahead".to_string() } else { format!("c12-edit-{}", what) };
+        out.fails.push((class, format!("[{}] editing paragraph {} of {}: {}", name, idx + 1, paras.len(), desc), input.clone()));
+    };
+    if h0 != h1 {
+        let mut a = h0.clone();
+        let mut b = h1.clone();
+        a.sort();
+        b.sort();
+        if a == b {
+            fail("order", "the lints BEFORE the edited paragraph are the same but in another order".into());
+        } else {
+            fail("changes-earlier-paragraph", format!("the lints before the edited paragraph changed: only before the edit {:?}; only after the edit {:?}", h0.iter().filter(|k| !h1.contains(k)).take(3).collect::<Vec<_>>(), h1.iter().filter(|k| !h0.contains(k)).take(3).collect::<Vec<_>>()));
+        }
+    } else if t0 != t1 {
+        let mut a = t0.clone();
+        let mut b = t1.clone();
+        a.sort();
+        b.sort();
+        if a == b {
+            fail("order", "the lints BEHIND the edited paragraph are the same but in another order".into());
+        } else {
+            fail("changes-later-paragraph", format!("the lints behind the edited paragraph changed other than by the length change (positions relative to the end of the edited paragraph): only before the edit {:?}; only after the edit {:?}", t0.iter().filter(|k| !t1.contains(k)).take(3).collect::<Vec<_>>(), t1.iter().filter(|k| !t0.contains(k)).take(3).collect::<Vec<_>>()));
+        }
+    } else if let Some(k) = reaches(&l0, start, old_end).or(reaches(&l1, start, new_end)) {
+        fail("straddles", format!("lint {:?} reaches across a boundary of the edited paragraph", k));
+    }
+    out
+}
+
+/// a complete paragraph free of quotation marks: 1–3 sentences, on one line or wrapped, then a break
+fn w25_paragraph(rng: &mut Rng, pool: &[&String]) -> String {
+    let n = rng.range(1, 3);
+    let joint = if rng.chance(1, 4) { "\n" } else { " " };
+    let mut s = String::new();
+    for i in 0..n {
+        if i > 0 {
+            s.push_str(joint);
+        }
+        s.push_str(pool[rng.below(pool.len())]);
+    }
+    s.push_str(*rng.pick(&["\n\n", "\n\n", "\n\n\n", " \n\n"]));
+    s
+}
+
+/// sentences (ending in a terminator, no quotation marks) in characters no rule test uses
+const W25_EXOTIC: &[&str] = &[
+    "Café déjà vu is an naïve façade.",
+    "The 😀 emoji and the 👩‍👩‍👧 family are are here.",
+    "An 𝐛𝐨𝐥𝐝 word and an 𝓈cript word.",
+    "ｆｕｌｌｗｉｄｔｈ ｌｅｔｔｅｒｓ are an ｔｅｓｔ.",
+    "A de\u{301}ja\u{300} vu with combining marks, teh e\u{301}nd.",
+    "中文 and 한국어 and العربية in an sentence.",
+    "It costs 5 € or £ 5 or ٣ dinars!",
+    "Zero\u{200b}width and soft\u{ad}hyphen and nbsp\u{a0}here?",
+    "Straße İstanbul ǅ ﬁ ½ teh.",
+    "An 𝟏st and a １st and a 1ˢᵗ.",
+];
+
+const W25_DIALECT_WORDS: &[(&str, &str)] = &[("color", "colour"), ("center", "centre"), ("realize", "realise"), ("labor", "labour"), ("traveler", "traveller"), ("gray", "grey")];
+
+/// first paragraphs and further texts no generator wrote
+fn w25_families(rng: &mut Rng, pool: &[&String], thorough: bool) -> Vec<(String, String)> {
+    let mut v: Vec<(String, String)> = vec![];
+    let long_word: String = "pneumono".repeat(60);
+    let long_doc = |rng: &mut Rng| -> String { (0..60).map(|_| pool[rng.below(pool.len())].as_str()).collect::<Vec<_>>().join(" ") };
+    let ds: Vec<String> = vec![
+        "".into(), " ".into(), "\t".into(), "  \t  ".into(), "There is an test.".into(), "teh Teh TEH.".into(),
+        "Line one is an test.\r\nLine two.\r\n".into(), "Line one.\rLine two is an test.\r".into(), "\r\nStarts with CRLF.".into(),
+        format!("A very long word {} is here.", long_word), long_word.clone(),
+        "Second one is an test.\n\nThird one is an test.\n\nFourth one is an test.".into(),
+        "1st 1st 1st e.g. e.g. N.S.A. N.S.A. ... ... don't don't.".into(),
+    ];
+    // the same word in the spelling of two dialects in both paragraphs (which one is flagged, and with
+    // which suggestions, depends on the dialect of the group: the dialect streams pick these up)
+    for (us, uk) in W25_DIALECT_WORDS {
+        for (a, b) in [(us, uk), (uk, us), (us, us), (uk, uk)] {
+            v.push((format!("I like the {} here.\n\n", a), format!("The {} is nice, and the {} too.", b, a)));
+        }
+    }
+    // every exotic sentence as P (alone and behind an ordinary sentence) × every special D
+    for (i, x) in W25_EXOTIC.iter().enumerate() {
+        for (j, d) in ds.iter().enumerate() {
+            if thorough || (i + j) % 3 == 0 {
+                v.push((format!("{}\n\n", x), d.clone()));
+                v.push((format!("This are a test. {}\n\n", x), format!("{} {}", W25_EXOTIC[(i + j) % W25_EXOTIC.len()], d)));
+            }
+        }
+    }
+    let n = if thorough { 3000 } else { 400 };
+    for i in 0..n {
+        // P of several paragraphs / wrapped lines; now and then with an exotic sentence inside
+        let mut p = String::new();
+        for _ in 0..rng.range(1, 3) {
+            p.push_str(&w25_paragraph(rng, pool));
+        }
+        if i % 4 == 0 {
+            p = format!("{} {}", rng.pick(W25_EXOTIC), p);
+        }
+        let d = match i % 6 {
+            0 => ds[rng.below(ds.len())].clone(),
+            1 => long_doc(rng),
+            2 => format!("{}{}", w25_paragraph(rng, pool), textgen::sentence(rng)),
+            3 => format!("{} {}", rng.pick(W25_EXOTIC), textgen::sentence(rng)),
+            4 => textgen::sentence(rng).replace(' ', if rng.chance(1, 2) { "\r\n" } else { "  " }),
+            _ => textgen::text(rng),
+        };
+        v.push((p, d));
+    }
+    v
+}
+
+/// The property at the real server: P+D, P and D open at once as three `plaintext` documents of
+/// one harper-ls `Backend`; then the first document is edited (another first paragraph): what is
+/// published for P+D is what is published for P, then what is published for D moved down by P's
+/// line count.
+fn w25_server(sess: &mut Session, ctx: &Ctx, pairs: &[(String, String, String)]) -> Result<(), crate::lsclient::LsError> {
+    use crate::lsclient::*;
+    set_home(&ctx.out.join("c12-home"));
+    let cfg = json!({"harper-ls": {}});
+    let mut ls = LsSession::start()?;
+    ls.initialize(&cfg)?;
+    let (uw, up, ud) = ("file:///c12-server/whole.txt".to_string(), "file:///c12-server/p.txt".to_string(), "file:///c12-server/d.txt".to_string());
+    let mut ver = 1i64;
+    for (n, (p, p2, d)) in pairs.iter().enumerate() {
+        for (step, first) in [p, p2].into_iter().enumerate() {
+            let whole = format!("{}{}", first, d);
+            if n == 0 && step == 0 {
+                ls.notify("textDocument/didOpen", did_open(&uw, "plaintext", &whole))?;
+                ls.notify("textDocument/didOpen", did_open(&up, "plaintext", first))?;
+                ls.notify("textDocument/didOpen", did_open(&ud, "plaintext", d))?;
+            } else {
+                ver += 1;
+                ls.notify("textDocument/didChange", did_change(&uw, ver, &whole))?;
+                ls.notify("textDocument/didChange", did_change(&up, ver, first))?;
+                if step == 0 {
+                    ls.notify("textDocument/didChange", did_change(&ud, ver, d))?;
+                }
+            }
+            ls.quiesce(&cfg)?;
+            let get = |ls: &LsSession, u: &str| ls.last_publication(u).map(w25_diag_keys);
+            let (Some(lw), Some(lp), Some(ld)) = (get(&ls, &uw), get(&ls, &up), get(&ls, &ud)) else {
+                sess.count("w25:server:no-publication");
+                continue;
+            };
+            sess.o();
+            sess.count("w25:server/Backend/plaintext/three-documents-open:pairs");
+            sess.count(if step == 0 { "w25:server:new-pair" } else { "w25:server:first-paragraph-edited" });
+            let shift = w25_pos(first.chars().filter(|c| *c == '\n').count() as u64, 0);
+            let mut want = lp.clone();
+            want.extend(ld.iter().map(|k| (k.0 + shift, k.1 + shift, k.2.clone(), k.3.clone(), k.4.clone(), k.5)));
+            if !lp.is_empty() && !ld.is_empty() {
+                sess.nontrivial(&format!("server\u{0}{}", whole));
+            }
+            if let Some((what, desc)) = w25_compare(&lw, &want, shift) {
+                let class = if w25_known_at(first, d) { "c12-lex-at-lookahead".to_string() } else { format!("c12-callsite-server-{}", what) };
+                sess.fail(&class, format!("[harper-ls Backend, plaintext, three documents open] {} — {}", what, desc), json!({"P": first, "D": d, "w25_stream": "server"}), None);
+            }
+        }
+    }
+    ls.shutdown(&cfg)?;
+    Ok(())
+}
+
+/// all w25 streams; called from `run` with the pair list of the main stream
+fn w25_run(sess: &mut Session, ctx: &Ctx, rng: &mut Rng, pool: &[&String], pairs: &[(String, String)], n_corpus: usize) {
+    let thorough = ctx.tier == Tier::Thorough;
+    // ---- 1. the other call sites / configurations on pairs of the main stream -------------------
+    // (pairs whose D starts with a newline belong to the recorded finding of the main stream)
+    let eligible: Vec<usize> = (0..pairs.len()).filter(|i| !pairs[*i].1.starts_with('\n')).collect();
+    let mut jobs: Vec<(usize, usize)> = vec![]; // (stream, pair)
+    let per_stream = if thorough { 4000 } else { 260 };
+    for s in 0..W25_STREAMS.len() {
+        let costly = W25_STREAMS[s].contains("per-lint");
+        let want = if costly { per_stream / 4 } else { per_stream };
+        // the corpus witnesses of the memo seeds (same word in two letter cases) always; the rest sampled
+        let mut picked: Vec<usize> = eligible.iter().copied().filter(|i| *i < n_corpus && pairs[*i].0.len() < 40 && CASE_TYPOS.iter().any(|(a, b)| pairs[*i].1.contains(a) || pairs[*i].1.contains(b))).collect();
+        if costly {
+            picked.truncate(24);
+        }
+        picked.extend(eligible.iter().copied().filter(|i| pairs[*i].0.starts_with("I like the ") && W25_DIALECT_WORDS.iter().any(|(a, b)| pairs[*i].0.contains(a) || pairs[*i].0.contains(b))).take(if costly { 8 } else { 24 }));
+        while picked.len() < want {
+            picked.push(eligible[rng.below(eligible.len())]);
+        }
+        jobs.extend(picked.into_iter().map(|i| (s, i)));
+    }
+    let outs = par_map(jobs.len(), 16, |j| w25_eval_pair(jobs[j].0, &pairs[jobs[j].1].0, &pairs[jobs[j].1].1));
+    for (j, o) in outs.into_iter().enumerate() {
+        let key = format!("w25\u{0}{}\u{0}{}\u{0}{}", jobs[j].0, pairs[jobs[j].1].0, pairs[jobs[j].1].1);
+        merge(sess, o, &key);
+    }
+    // ---- 2. the second sentence: edit one paragraph of a three-paragraph document -----------------
+    struct Edit {
+        s: Option<usize>,
+        cfg: usize,
+        paras: Vec<String>,
+        idx: usize,
+        repl: String,
+    }
+    let mut edits: Vec<Edit> = vec![];
+    let nedit = if thorough { 3000 } else { 300 };
+    let targets: [(Option<usize>, usize); 6] = [(None, 0), (None, 1), (Some(3), 0), (Some(5), 0), (Some(6), 0), (Some(8), 0)];
+    let mut add = |edits: &mut Vec<Edit>, n: usize, paras: Vec<String>, idx: usize, repl: String| {
+        let (s, cfg) = targets[n % targets.len()];
+        edits.push(Edit { s, cfg, paras, idx, repl });
+    };
+    // corpus: the witnesses of the seeded changes as edits
+    let mut n = 0;
+    for (a, b, c, idx, r) in [
+        ("This is the 1st draft.\n\n", "Here is the 2nd draft.\n\n", "And the 3rd one.", 0usize, "This is the first draft.\n\n"),
+        ("The prices went up again this week.\n\n", "That is fine.\n\n", "$ 20 is too much for a sandwich.", 1, ""),
+        ("I saw teh dog in the park.\n\n", "It was happy.\n\n", "Teh dog was happy to see me.", 0, "I saw the dog in the park.\n\n"),
+        ("We bought apples, pears, etc.\n\n", "We bought apples.\n\n", "Is it good?", 1, "We bought pears, etc.\n\n"),
+        ("This is an test.\n\n", "This are a test.\n\n", "There is an test.", 1, "😀 𝐛𝐨𝐥𝐝 ｆｕｌｌ are an test!\n\n"),
+        ("This is an test.\n\n", "This are a test.\n\n", "There is an test.", 2, ""),
+        ("This is an test.\n\n", "This are a test.\n\n", "There is an test.", 0, ""),
+    ] {
+        for _ in 0..targets.len() {
+            add(&mut edits, n, vec![a.to_string(), b.to_string(), c.to_string()], idx, r.to_string());
+            n += 1;
+        }
+    }
+    for i in 0..nedit {
+        let np = rng.range(2, 4);
+        let mut paras: Vec<String> = (0..np).map(|_| w25_paragraph(rng, pool)).collect();
+        if i % 5 == 0 {
+            let k = rng.below(np);
+            paras[k] = format!("{} {}", rng.pick(W25_EXOTIC), paras[k]);
+        }
+        if i % 3 == 0 {
+            // the last paragraph: any further text that does not start with a newline
+            let t = textgen::sentence(rng);
+            paras[np - 1] = t;
+        }
+        let idx = rng.below(np);
+        let last = idx == np - 1;
+        let repl = match rng.below(6) {
+            0 => String::new(),
+            1 => format!("{}{}", w25_paragraph(rng, pool), w25_paragraph(rng, pool)),
+            2 => format!("{} {}", rng.pick(W25_EXOTIC), w25_paragraph(rng, pool)),
+            3 if last => textgen::sentence(rng),
+            4 => {
+                // a one-word edit of the paragraph itself (the usual keystroke): a typo goes in or out
+                let x = &paras[idx];
+                if x.contains(" the ") { x.replacen(" the ", " teh ", 1) } else { x.replacen(' ', " teh ", 1) }
+            }
+            _ => w25_paragraph(rng, pool),
+        };
+        if repl.starts_with('\n') {
+            continue;
+        }
+        add(&mut edits, i, paras, idx, repl);
+    }
+    let outs = par_map(edits.len(), 16, |j| w25_eval_edit(edits[j].s, edits[j].cfg, &edits[j].paras, edits[j].idx, &edits[j].repl));
+    for (j, o) in outs.into_iter().enumerate() {
+        let key = format!("w25-edit\u{0}{:?}\u{0}{}\u{0}{}", edits[j].paras, edits[j].idx, edits[j].repl);
+        merge(sess, o, &key);
+    }
+}
+
 pub fn run(ctx: &Ctx) {
     let mut sess = Session::new(ctx);
     let mut rng = Rng::new(ctx.seed);
@@ -418,6 +935,32 @@ pub fn run(ctx: &Ctx) {
             sess.nontrivial("replay-a");
             sess.nontrivial("replay-b");
             sess.finish("replay of one recorded rule input", false, json!({}));
+            return;
+        }
+        // w25 replay kinds: an edit (`paragraphs`, `edit`, `replacement`) or a pair through one of the w25 streams
+        if let Some(name) = v["w25_stream"].as_str() {
+            let s = W25_STREAMS.iter().position(|x| *x == name);
+            let cfg = CONFIGS.iter().position(|x| *x == name).unwrap_or(0);
+            if let Some(ps) = v["paragraphs"].as_array() {
+                let paras: Vec<String> = ps.iter().map(|x| x.as_str().unwrap_or("").to_string()).collect();
+                let idx = (v["edit"].as_u64().unwrap_or(0) as usize).min(paras.len().saturating_sub(1));
+                if !paras.is_empty() {
+                    let o = w25_eval_edit(s, cfg, &paras, idx, v["replacement"].as_str().unwrap_or(""));
+                    merge(&mut sess, o, "replay");
+                }
+            } else {
+                let p = v["P"].as_str().unwrap_or("").to_string();
+                let d = v["D"].as_str().unwrap_or("").to_string();
+                if name == "server" {
+                    let _ = w25_server(&mut sess, ctx, &[(p.clone(), p.clone(), d.clone())]);
+                } else if let Some(s) = s {
+                    let o = w25_eval_pair(s, &p, &d);
+                    merge(&mut sess, o, "replay");
+                }
+            }
+            sess.nontrivial("replay-a");
+            sess.nontrivial("replay-b");
+            sess.finish("replay of one recorded input of a w25 stream", false, json!({}));
             return;
         }
         let p = v["P"].as_str().unwrap_or("").to_string();
@@ -435,6 +978,24 @@ pub fn run(ctx: &Ctx) {
         .filter(|s| !s.chars().any(|c| QUOTES.contains(&c)) && s.trim_end().ends_with(['.', '!', '?']) && s.trim_end().len() == s.len())
         .collect();
     sess.add("first-paragraph-sentence-pool", pool.len() as u64);
+    // w25: the property at the real server (first: `set_home` wants no other thread running yet)
+    let mut w25_secs: BTreeMap<&str, f64> = BTreeMap::new();
+    let t_w25 = std::time::Instant::now();
+    {
+        let mut r2 = Rng::new(ctx.seed ^ 0x7725);
+        let mut sp: Vec<(String, String, String)> = vec![
+            ("I saw teh dog in the park.\n\n".into(), "I saw the dog in the park. It was an test.\n\n\n".into(), "Teh dog was happy to see me.".into()),
+            ("We bought apples, pears, etc.\n\n".into(), "We bought 😀 𝐛𝐨𝐥𝐝 apples, etc.\nAnd an pear.\n\n".into(), "Is it good? $ 20 is too much.\r\nThere is an test.".into()),
+        ];
+        for _ in 0..(if ctx.tier == Tier::Thorough { 40 } else { 6 }) {
+            sp.push((w25_paragraph(&mut r2, &pool), format!("{}{}", w25_paragraph(&mut r2, &pool), w25_paragraph(&mut r2, &pool)), textgen::sentence(&mut r2)));
+        }
+        if let Err(e) = w25_server(&mut sess, ctx, &sp) {
+            sess.sample(json!({"w25 server stream failed": format!("{:?}", e)}));
+            sess.count("w25:server:stream-error");
+        }
+    }
+    w25_secs.insert("server stream", t_w25.elapsed().as_secs_f64());
     let seps = ["\n\n", "\n\n\n", " \n\n", "\n\n", "\n\n", " \t\n\n", "\t \n\n\n", " \t \n\n"];
     let mut pairs: Vec<(String, String)> = vec![];
     // 1. corpus: the witnesses of the theorems' conditions and of past findings
@@ -534,19 +1095,60 @@ pub fn run(ctx: &Ctx) {
         };
         pairs.push((p, d));
     }
+    // w25: first paragraphs / further texts no generator above writes (appended: the pairs above stay as they were)
+    let n_random_end = pairs.len();
+    {
+        let mut r2 = Rng::new(ctx.seed ^ 0x2577);
+        pairs.extend(w25_families(&mut r2, &pool, ctx.tier == Tier::Thorough));
+    }
     // a fresh group per lint is costly: the corpus, and a slice of the random pairs (the ones with the
     // same construct / the same unknown word injected in both paragraphs fall on i % 9 == 3)
     let fresh_every = if ctx.tier == Tier::Thorough { 9 } else { 45 };
     let with_k_every = if ctx.tier == Tier::Thorough { 1 } else { 1 };
-    let outs = par_map(pairs.len(), 16, |i| eval_pair(&pairs[i].0, &pairs[i].1, i % with_k_every == 0, None, i < n_corpus || i % fresh_every == 3));
+    let t_main = std::time::Instant::now();
+    // w25: the very long family texts cost the Lean model of the K step more than the whole rest of the
+    // run; in the quick tier they are evaluated by the oracle (all three configurations) without K lines
+    // (thorough tier: every eighth of them keeps its K lines)
+    let k_too_long = |i: usize| i >= n_random_end && (ctx.tier != Tier::Thorough || i % 8 != 0) && pairs[i].0.len() + pairs[i].1.len() > 600;
+    let outs = par_map(pairs.len(), 16, |i| eval_pair(&pairs[i].0, &pairs[i].1, i % with_k_every == 0 && !k_too_long(i), None, i < n_corpus || i % fresh_every == 3));
     for (i, o) in outs.into_iter().enumerate() {
         if i == n_corpus || i == n_small || i == n_small + 1 {
             sess.sample(json!({"P": trunc(&pairs[i].0, 160), "D": trunc(&pairs[i].1, 160)}));
         }
-        sess.count(if i < n_corpus { "origin:corpus" } else if i < n_small { "origin:small-scope" } else { "origin:random" });
+        if k_too_long(i) {
+            sess.count("w25:family:over-600-bytes(oracle only: all in the quick tier, 7 of 8 in the thorough tier)");
+        }
+        sess.count(if i < n_corpus { "origin:corpus" } else if i < n_small { "origin:small-scope" } else if i < n_random_end { "origin:random" } else { "origin:w25-families" });
+        if i >= n_random_end {
+            let (p, d) = (&pairs[i].0, &pairs[i].1);
+            for (tag, on) in [
+                ("P-non-ascii", !p.is_ascii()),
+                ("P-astral", p.chars().any(|c| c as u32 > 0xFFFF)),
+                ("P-several-paragraphs", p.trim_end().contains("\n\n")),
+                ("P-wrapped-lines", p.trim_end().contains('\n')),
+                ("D-empty-or-blank", d.trim().is_empty()),
+                ("D-cr", d.contains('\r')),
+                ("D-non-ascii", !d.is_ascii()),
+                ("D-several-paragraphs", d.trim().contains("\n\n")),
+                ("D-over-2000-chars", d.chars().count() > 2000),
+                ("D-word-over-100-chars", d.split_whitespace().any(|w| w.chars().count() > 100)),
+            ] {
+                if on {
+                    sess.count(&format!("w25:family:{}", tag));
+                }
+            }
+        }
         let key = format!("{}\u{0}{}", pairs[i].0, pairs[i].1);
         merge(&mut sess, o, &key);
     }
+    w25_secs.insert("main pair stream (of which the appended families are 1/15 of the pairs in the quick tier)", t_main.elapsed().as_secs_f64());
+    // w25: the other call sites and configurations, and the second sentence of the statement
+    let t_w25 = std::time::Instant::now();
+    {
+        let mut r2 = Rng::new(ctx.seed ^ 0x2512);
+        w25_run(&mut sess, ctx, &mut r2, &pool, &pairs, n_corpus);
+    }
+    w25_secs.insert("call-site / configuration streams and edit stream", t_w25.elapsed().as_secs_f64());
     // concrete rules against Model/Rules.lean: K, in-range and per-rule locality
     crate::rules::run_into(&mut sess, ctx, &mut rng);
     crate::leaves::run_into(&mut sess, ctx, &mut rng);
@@ -556,6 +1158,6 @@ pub fn run(ctx: &Ctx) {
     sess.finish(
         &format!("{} {} {} {} {} {}", crate::rules::RULE, crate::leaves::RULE, crate::prules::RULE, crate::rules2::RULE, crate::mrules::RULE, "pairs (P, D): P = 1–3 rule-test sentences free of quotation marks ending in [.!?] followed by a paragraph break (\\n\\n, \\n\\n\\n, space+\\n\\n); D = a rule-test sentence, the same with a curated opening (newlines, blank, digits, ordinal, @, :, lower case, quotes, apostrophe, punctuation, regexish, hex, decade, e.g., et al., etc.), lower-cased first letter, spice + prose, or a mutated / malformed text of the shared generator; plus a corpus of boundary witnesses and a small-scope grid (5 separators × 25 openings × 3 tails). K: PlainEnglish::parse (`lex`), Document::new (`doc`) and iter_paragraphs / iter_sentences / iter_chunks (`pieces`) on P, D and P+D against the Lean models. O: lint(P+D) = lint(P) ++ shift(lint(D)) as multisets of (span, kind, message, suggestions, priority), in the same order within each paragraph, none straddling the break; every rule on (chunk cache defeated by a config nonce) and curated defaults (long-lived caching group). Monitors: ClsOK (class-table laws on every character seen), ExtLocal, ExtNoNl, lex_append, DocAppend, parsePlain_ends_break/noQuotes, and the theorem document_append with its text-level hypotheses on the real token streams. Non-trivial = P has ≥8 and D ≥4 document tokens; distinct by (P, D)."),
         false,
-        json!({"configs": CONFIGS, "pairs": pairs.len()}),
+        json!({"configs": CONFIGS, "pairs": pairs.len(), "w25_streams": W25_STREAMS, "w25_wall_seconds": w25_secs}),
     );
 }
